@@ -109,6 +109,7 @@ impl TimeZone for Utc { type Offset = Utc; }
     u.raw('impl TimeDelta {')
     for n in ['num_nanoseconds', 'nanoseconds']:
         u.stub(FTD, n, 'impl TimeDelta {', cid='TimeDelta::' + n)
+    u.stub_all(FTD, 'impl TimeDelta {', 'TimeDelta')
     u.raw('}\nimpl NaiveTime {')
     u.stub('src/naive/time/mod.rs', 'nanosecond', 'impl NaiveTime {', cid='NaiveTime::nanosecond')
     u.raw('}\nimpl<Tz: TimeZone> DateTime<Tz> {')
